@@ -29,7 +29,7 @@ STUBS2 = r"""
 """
 
 KEEP_FNS = {"none", "with_assigned", "with_temporary", "with_register", "with_any_register", "with_fixed_register", "node_with_span", "node",
-            "assign_result_register", "compile_load_non_local", "compile_constant_op"}
+            "assign_result_register", "compile_load_non_local", "compile_constant_op", "compile_for_side_effects"}
 
 def _base_items():
     out = []
@@ -111,6 +111,77 @@ UNIT = Unit(
             t.len() == n + 6 && prefix(old(self).g@.trace, t)
                 && t[n].is_node(expression, if ctx.result_register is Fixed { ctx.result_register } else { ResultRegister::Any })
                 && (t[n + 1] matches Ev::Op { op, args, .. } && op == Op::MakeIterator && args.len() == 2 && args[1] == t[n].reg()) })),          // @expression_evaluated_then_its_entries_exported
+"""),
+        # ---- C01: break / continue (arms of compile_node, rule R13)
+        Type("crates/bytecode/src/frame.rs", "struct Loop"),
+        Fn(F, "impl Compiler :: fn compile_node", props=P01, rename="compile_node__break_arm",
+           fragment=dict(start="let loop_result_register = loop_info.result_register;\n\n                    match (loop_result_register, expression) {", to_block_end=True, prologue="use Op::*;", wrap=("Ok({", "})"),
+                         sig="fn compile_node(&mut self, loop_info: &Loop, expression: &Option<AstIndex>, ctx: CompileNodeContext) -> Result<CompileNodeOutput>"),
+           subst=[(r"self\.error\(ErrorKind::\w+\)", "self.error_any()", None, "re")],
+           spec=r"""
+    requires old(self).g@.spans.len() > 0,
+        // the innermost loop of the frame (`self.frame().current_loop()` gave Some(loop_info))
+        old(self).g@.loops.len() > 0, loop_info.result_register == old(self).g@.loops.last().result,
+    ensures
+        // C01: `break value` puts the value into the LOOP's result register (a plain `break` makes the loop's value
+        // null), then leaves the loop: a jump that is registered with the innermost loop, to be patched to its end
+        r is Ok ==> ({
+            let t = final(self).g@.trace; let n = old(self).g@.trace.len() as int;
+            let k = if loop_info.result_register is Some { n + 1 } else { n };
+            &&& t.len() == k + 2 && prefix(old(self).g@.trace, t)
+            &&& (match (loop_info.result_register, *expression) {
+                    (Some(lr), Some(e)) => t[n].is_node(e, ResultRegister::Fixed(lr)),
+                    (Some(lr), None) => t[n].is_op(Op::SetNull, seq![lr]),
+                    (None, Some(_)) => false,
+                    (None, None) => true,
+                })
+            &&& t[k].is_op(Op::Jump, Seq::empty()) && t[k + 1] is Hole
+            &&& final(self).g@.loops.len() == old(self).g@.loops.len() && final(self).g@.loops.last().holes.contains(t[k + 1].pos())
+            &&& final(self).g@.loops.last().start == old(self).g@.loops.last().start && final(self).g@.loops.last().result == old(self).g@.loops.last().result
+            &&& final(self).g@.loops.drop_last() == old(self).g@.loops.drop_last() }),                                                      // @value_into_the_loops_register_then_leave_the_loop
+        // a value for a loop whose value is not used is an error
+        (loop_info.result_register is None && *expression is Some) ==> r is Err,                                                          // @unassigned_break_value_is_an_error
+        // the break expression itself has no value
+        r matches Ok(out) ==> out.register is None && !out.is_temporary && final(self).g@.regs == old(self).g@.regs && final(self).g@.spans == old(self).g@.spans,   // @no_value_no_registers
+"""),
+        Fn(F, "impl Compiler :: fn compile_node", props=P01, rename="compile_node__continue_arm",
+           fragment=dict(start="let loop_result_register = loop_info.result_register;\n                    let loop_start_ip = loop_info.start_ip;", to_block_end=True, prologue="use Op::*;", wrap=("Ok({", "})"),
+                         sig="fn compile_node(&mut self, loop_info: &Loop, ctx: CompileNodeContext) -> Result<CompileNodeOutput>"),
+           spec=r"""
+    requires old(self).g@.spans.len() > 0,
+    ensures
+        // C01: `continue` makes the loop's value null (when it has one) and jumps back to the start of the loop
+        r is Ok ==> ({
+            let t = final(self).g@.trace; let n = old(self).g@.trace.len() as int;
+            let k = if loop_info.result_register is Some { n + 1 } else { n };
+            &&& t.len() == k + 1 && prefix(old(self).g@.trace, t)
+            &&& (loop_info.result_register matches Some(lr) ==> t[n].is_op(Op::SetNull, seq![lr]))
+            &&& (t[k] matches Ev::Back { op, target, .. } && op == Op::JumpBack && target == loop_info.start_ip as int) }),                   // @null_then_back_to_the_start_of_the_loop
+        r matches Ok(out) ==> out.register is None && !out.is_temporary && final(self).same_frame_state(old(self)) && final(self).g@.patched == old(self).g@.patched,   // @no_value_no_registers
+"""),
+        # ---- C01: range literals (arms of compile_node, rule R13)
+        Fn(F, "impl Compiler :: fn compile_node", props=P01, rename="compile_node__range_arm",
+           fragment=dict(start="let result = self.assign_result_register(ctx)?;\n\n                if let Some(result_register) = result.register {\n                    let start_result = self.compile_node(*start, ctx.with_any_register())?;", to_block_end=True, prologue="use Op::*;", wrap=("Ok({", "})"),
+                         sig="fn compile_node(&mut self, start: &AstIndex, end: &AstIndex, inclusive: &bool, ctx: CompileNodeContext) -> Result<CompileNodeOutput>"),
+           before=[("result\n                } else {", "proof { assert(Self::frame_post(old(self), self, old(self).len())); }")],
+           spec=r"""
+    requires old(self).g@.spans.len() > 0,
+    ensures
+        // C01: `a..b` / `a..=b`: the start, then the end, each into a register of its own, then ONE instruction that
+        // builds the range (inclusive or not) into the result register; without a result request both bounds are still
+        // evaluated, in order
+        r matches Ok(out) ==> ({
+            let t = final(self).g@.trace; let n = old(self).g@.trace.len() as int;
+            prefix(old(self).g@.trace, t) && (if ctx.result_register is None {
+                t.len() == n + 2 && t[n].is_node(*start, ResultRegister::None) && t[n + 1].is_node(*end, ResultRegister::None)
+            } else {
+                t.len() == n + 3 && t[n].is_node(*start, ResultRegister::Any) && t[n + 1].is_node(*end, ResultRegister::Any)
+                    && (out.register matches Some(x) && t[n + 2].is_op(if *inclusive { Op::RangeInclusive } else { Op::Range }, seq![x, t[n].reg(), t[n + 1].reg()]))
+            }) }),                                                                                                                        // @start_then_end_then_the_range
+        r matches Ok(out) ==> final(self).g@.regs == old(self).g@.regs + (if out.is_temporary { 1int } else { 0 }),                       // @temporaries_released
+        r matches Ok(out) ==> (out.is_temporary ==> ctx.result_register is Any),
+        r matches Ok(out) ==> (ctx.result_register matches ResultRegister::Fixed(x) ==> out.register == Some(x) && !out.is_temporary),    // @result_request_is_honoured
+        r is Ok ==> Self::frame_post(old(self), final(self), old(self).len()),
 """),
     ],
     epilogue=r"""
